@@ -22,6 +22,8 @@
   (UBSan + bounds-checked libstdc++), not proved.
 -/
 import OpmVerif.Proofs.EclBinSafe
+import OpmVerif.Proofs.EclFmtSafe
+import OpmVerif.Proofs.EclFmt
 import OpmVerif.Proofs.LexSafe
 import OpmVerif.Proofs.LexPtr
 import OpmVerif.Proofs.Scan
@@ -56,6 +58,21 @@ theorem truncated_file_exact_or_error_partial (as : List Arr) (hwf : ∀ a ∈ a
     (hload : loadEntry ((encodeFile as).take k) idx[i] = .ok a) :
     as[i]? = some a :=
   truncation_exact_or_error as hwf k idx hidx i hi a hload
+
+/-- Any character string opened as a *formatted* result file: the index loop of
+`EclFile::load` (header line, `sizeOnDiskFormatted` skip, `isEOF`) consumes at least one
+character per round, so the fuel of the model (`length + 1`) is never the reason for its
+result — more fuel changes nothing. -/
+theorem eclfile_formatted_index_terminates_partial (s : List Char) (off extra : Nat) :
+    EclFmt.loadIndex (s.length + 1 + extra) off s = EclFmt.loadIndex (s.length + 1) off s :=
+  EclFmt.loadIndex_enough s off extra
+
+/-- Every array type a formatted header can announce has a non-zero column count and block
+size: the divisions of `sizeOnDiskFormatted` / the writer loops never divide by zero (the
+`C0nn` case with 78 or more characters was a SIGFPE before fix 93e899aa0). -/
+theorem eclfile_formatted_no_zero_divisor_partial (t : ArrType) (hm : t ≠ .mess) :
+    0 < (EclFmt.fmtParams t).2.1 ∧ 0 < (EclFmt.fmtParams t).1 :=
+  EclFmt.fmtParams_pos t hm
 
 
 /-! ## Deck text: the lexical layer, for every byte string
